@@ -1880,8 +1880,20 @@ func ruleNestedUntainted(r *Run) {
 		for _, g := range withClosures(fn) {
 			allInstrs(g, func(in ssa.Instruction) {
 				c, ok := in.(ssa.CallInstruction)
-				if !ok || staticCallee(c) != fn {
+				if !ok {
 					return
+				}
+				// a recursive call: to fn itself, or to a sibling method that leads back to fn (the per-item
+				// work split off into a helper that re-enters the loop expansion)
+				if cal := staticCallee(c); cal != fn {
+					if cal == nil || cal.Signature.Recv() == nil || !typeIs(cal.Signature.Recv().Type(), pkgDoc, "TemplateEngine") || !p.staticReach(cal)[fn] {
+						return
+					}
+					// only the edge that closes the cycle towards the loop expansion itself is the
+					// "hand the text down" step; a call that merely can reach fn through other API is not
+					if !p.staticReach(fn)[cal] {
+						return
+					}
 				}
 				// string arguments of the recursive call
 				for ai, a := range c.Common().Args {
